@@ -28,6 +28,15 @@ extra.update({"C03-11": ["C10", "C06"], "C03-12": ["C06"], "C06-11": ["C10", "C0
               "C01-11": ["C02"], "C02-11": ["C15"], "C02-12": ["C05"], "C04-11": ["C09"], "C04-12": ["C09"], "C05-11": ["C13"], "C05-12": ["C02"]})
 only = sys.argv[1:]
 rows = []
+# the checks rewrite evidence/<id>.json on every run: what they write while a seeded change is applied must not stay
+import shutil, tempfile, atexit
+_ev_backup = tempfile.mkdtemp(prefix="evidence-backup-", dir=os.path.join(V, ".build") if os.path.isdir(os.path.join(V, ".build")) else None)
+shutil.copytree(os.path.join(V, "evidence"), os.path.join(_ev_backup, "evidence"))
+def _restore_evidence():
+    shutil.rmtree(os.path.join(V, "evidence"), ignore_errors=True)
+    shutil.copytree(os.path.join(_ev_backup, "evidence"), os.path.join(V, "evidence"))
+    shutil.rmtree(_ev_backup, ignore_errors=True)
+atexit.register(_restore_evidence)
 for d in sorted(glob.glob(V + "/seeded/C*-*")):
     mid = os.path.basename(d)
     if only and mid not in only:
